@@ -119,7 +119,7 @@ def tlc_failed(out):
 FLAGMAP = {"replace": "replace", "atomic": "atomic", "cleanup": "cleanupOnFail", "keep": "keepHistory",
            "nohooks": "noHooks", "lim": "maxHistory", "ver": "version", "dry": "dryRun",
            "takeown": "takeOwnership", "clientOnly": "clientOnly", "createNS": "createNamespace",
-           "skipCRDs": "skipCRDs", "force": "force"}
+           "skipCRDs": "skipCRDs", "force": "force", "install": "install"}
 
 CHARTS = json.load(open(os.path.join(SPEC, "charts.json")))
 
